@@ -282,6 +282,27 @@ pub fn run_c17(seed: u64, run: u64) -> Acc {
         acc.nontrivial.insert(fnv(b as u64, format!("{:?}", &clean_lines[..b]).as_bytes()));
         judge_eof(&sc, &res, false, &mut acc, run, b);
     }
+    // ... and right after unknown / blank lines of the noisy script (a reader that treats
+    // blank lines specially must still see the end of input behind them)
+    let noise_idx: Vec<usize> = (1..noisy.len()).filter(|i| {
+        let t = sa::tokens(&noisy[*i].0);
+        t.is_empty() || !["uci", "isready", "ucinewgame", "position", "go", "setoption", "quit"].contains(&t[0])
+    }).collect();
+    for _ in 0..6.min(noise_idx.len()) {
+        let i = *rng.pick(&noise_idx);
+        // sometimes several blank lines in a row before the end
+        let mut lines = noisy[..=i].to_vec();
+        if rng.chance(1, 3) {
+            lines.push((rng.pick(&["", " ", "\t", "  \t "]).to_string(), if rng.chance(1, 3) { "\r\n".into() } else { "\n".into() }));
+        }
+        let sc = script(&lines, true, false);
+        let res = sa::run(&sc);
+        acc.virtual_ns += res.virtual_ns;
+        acc.evals += 1;
+        acc.count("fault_fired:eof_after_noise_line");
+        acc.nontrivial.insert(fnv(i as u64, format!("{:?}", lines).as_bytes()));
+        judge_eof(&sc, &res, false, &mut acc, run, lines.len());
+    }
     for _ in 0..2 {
         let b = rng.below(clean_lines.len() as u64) as usize;
         let line = &clean_lines[b].0;
